@@ -135,11 +135,11 @@ var BigDocs = []BigDoc{
 	{"neg-exponent-digits", func(n int) []byte { return []byte("1e-" + strings.Repeat("9", n)) }},
 	{"exponent-zeros", func(n int) []byte { return []byte("1e" + strings.Repeat("0", n) + "5") }},
 	{"plain-string", func(n int) []byte { return []byte(`"` + strings.Repeat("a", n) + `"`) }},
-	{"utf8-string", func(n int) []byte { return []byte(`"` + strings.Repeat("é", n/2) + `"`) }},
+	{"utf8-string", func(n int) []byte { return []byte(`"` + strings.Repeat("\xc3\xa9", n/2) + `"`) }},
 	{"invalid-utf8-string", func(n int) []byte { return []byte(`"` + strings.Repeat("\xff", n) + `"`) }},
 	{"newline-escapes", func(n int) []byte { return []byte(`"` + strings.Repeat(`\n`, n/2) + `"`) }},
-	{"unicode-escapes", func(n int) []byte { return []byte(`"` + strings.Repeat(`é`, n/6) + `"`) }},
-	{"surrogate-pairs", func(n int) []byte { return []byte(`"` + strings.Repeat(`😀`, n/12) + `"`) }},
+	{"unicode-escapes", func(n int) []byte { return []byte(`"` + strings.Repeat(`\u00e9`, n/6) + `"`) }},
+	{"surrogate-pairs", func(n int) []byte { return []byte(`"` + strings.Repeat(`\ud83d\ude00`, n/12) + `"`) }},
 	{"lone-surrogates", func(n int) []byte { return []byte(`"` + strings.Repeat(`\ud83d`, n/6) + `"`) }},
 	{"unterminated-string", func(n int) []byte { return []byte(`"` + strings.Repeat("a", n)) }},
 	{"whitespace", func(n int) []byte { return []byte(strings.Repeat(" \n\t\r", n/4) + "1") }},
